@@ -378,12 +378,15 @@ def replay(oid, kwargs, model, data):
         lens = kwargs["lens"]
         lists = [[(int(model.get(f"v{k}_{i}", i)) if k % 2 == 0 else float(model.get(f"v{k}_{i}", i))) for i in range(n)] for k, n in enumerate(lens)]
         for k in range(len(lists)):
-            if len(set(lists[k])) != len(lists[k]) or (k == 2 and not (0 < min(lists[k]) and max(lists[k]) <= 1000)):
+            if len(set(lists[k])) != len(lists[k]):
                 lists[k] = [10.0 + i + 100 * k for i in range(lens[k])]
         flags = [bool(model.get(f"en{k}", True)) for k in range(len(lens))]
         on = [k for k in range(len(lens)) if flags[k]]
         params = [ParameterValues(key=KEYS[k], values=lists[k], enabled=flags[k]) for k in range(len(lens))]
         proc = _processor()
+        for k in range(len(lens)):
+            if k != 2 and f"default{k}" in model:
+                proc.set(KEYS[k], int(model[f"default{k}"]), convert_value=False)
         mode = SequentialMode(params)
         items = mode.get_parameters_item(processor=proc)
         want = []
